@@ -121,6 +121,9 @@ def system512(draw):
 
 
 HOWS = ["steps", "step", "integrate"]
+# integrate() entered on an unsynchronised state: tmax == t, or less than one step ahead (both exact_finish_time values)
+HOWS_ENTER = ["steps_inow0", "steps_inow1", "steps_short0", "steps_short1"]
+HOWS_ENTER512 = ["steps_inow0", "steps_short0"]
 
 
 def segments(hows, min_size=1, max_size=4, nmax=12, ops=None):
@@ -134,19 +137,19 @@ def segments(hows, min_size=1, max_size=4, nmax=12, ops=None):
 deferred_case = st.fixed_dictionaries({
     "system": system_tp(), "cfg": st.one_of(whfast_opts, saba_opts, mercurius_opts),
     "dt_frac": dt_frac, "sign": dt_sign,
-    "segments": segments(HOWS + ["integrate_exact"]),
+    "segments": segments(HOWS + ["integrate_exact"] + HOWS_ENTER),
 })
 deferred512_case = st.fixed_dictionaries({
     "system": system512(), "cfg": wh512_opts, "dt_frac": dt_frac, "sign": st.just(1),
-    "segments": segments(HOWS),
+    "segments": segments(HOWS + HOWS_ENTER512),
 })
 eos_case = st.fixed_dictionaries({
     "system": S.hierarchical_system(nmin=2, nmax=4), "cfg": eos_opts,
     "dt_frac": st.sampled_from([0.02, 0.01, 0.005, 0.002]), "sign": dt_sign,
-    "segments": segments(HOWS + ["integrate_exact"], max_size=3, nmax=8),
+    "segments": segments(HOWS + ["integrate_exact"] + HOWS_ENTER, max_size=3, nmax=8),
 })
 
-KEEP_OPS = ["sync", "sync2", "energy", "orbits", "copy", "save", "pickle", "stream", "momentum", "com"]
+KEEP_OPS = ["sync", "sync2", "energy", "orbits", "copy", "save", "pickle", "stream", "momentum", "com", "inow0", "inow1"]
 keep_op = st.sampled_from(KEEP_OPS)
 keep_case = st.fixed_dictionaries({
     "system": system_tp(), "cfg": st.one_of(whfast_opts, saba_opts),
@@ -182,6 +185,7 @@ def any_cfg(draw):
 twice_case = st.fixed_dictionaries({
     "system": system_tp(nmax=4), "cfg": any_cfg(), "dt_frac": dt_frac, "sign": dt_sign,
     "pre_sync": st.booleans(), "how": st.sampled_from(HOWS),
+    "via": st.sampled_from(["synchronize", "synchronize", "inow0", "inow1"]),
     "n1": st.integers(0, 6), "n2": st.integers(0, 6), "n3": st.integers(0, 4),
 })
 twice512_case = st.fixed_dictionaries({
@@ -189,6 +193,7 @@ twice512_case = st.fixed_dictionaries({
         lambda t: dict(t[0], set=[list(x) for x in t[0]["set"]] + ([[KEEP_PATH["whfast512"], 1]] if t[1] else []))),
     "dt_frac": dt_frac, "sign": st.just(1),
     "pre_sync": st.booleans(), "how": st.sampled_from(HOWS),
+    "via": st.sampled_from(["synchronize", "synchronize", "inow0"]),
     "n1": st.integers(0, 6), "n2": st.integers(0, 6), "n3": st.integers(0, 4),
 })
 
@@ -224,6 +229,27 @@ def make(case, extra=(), dt_div=1.0):
 
 def advance(sim, how, n, frac=0.5, each_step=None, mult=1):
     """advance by n steps (n*mult when the step was divided by mult; the exact-finish variant ends at the same time)"""
+    if how.startswith("steps_"):
+        # n plain steps (state left unsynchronised in deferred mode), then integrate() is entered on that state:
+        # to the current time (no new step, only its final synchronisation) or to less than one step ahead
+        if each_step is None:
+            sim.steps(n * mult)
+        else:
+            for _ in range(n * mult):
+                sim.step()
+                each_step(sim)
+        tail = how[6:]
+        if tail == "inow0":
+            sim.integrate(sim.t, exact_finish_time=0)
+        elif tail == "inow1":
+            sim.integrate(sim.t, exact_finish_time=1)
+        elif tail == "short0":
+            sim.integrate(sim.t + frac * sim.dt, exact_finish_time=0)      # one more full step
+        elif tail == "short1":
+            sim.integrate(sim.t + frac * sim.dt, exact_finish_time=1)      # one shortened step
+        else:
+            raise ValueError(how)
+        return
     if how == "steps":
         sim.steps(n * mult)
     elif how == "step":
@@ -314,7 +340,7 @@ def run_deferred(case, ctx):
         howA = seg["how"]
         if fam == "whfast512" and howA == "steps":
             howA = "step"
-        advance(A, howA, n, seg["frac"], each_step=each if howA == "step" else None)
+        advance(A, howA, n, seg["frac"], each_step=each if (howA == "step" or howA.startswith("steps_")) else None)
         if fam == "whfast512":
             A.synchronize()
         advance(B, seg["how"], n, seg["frac"])
@@ -420,6 +446,10 @@ def do_op(sim, op, ctx, state):
     from .. import rb
     if op == "sync":
         sim.synchronize()
+    elif op in ("inow0", "inow1"):
+        # the same output requested through integrate() to the current time
+        eft = 1 if (op == "inow1" and sim.integrator != "whfast512") else 0
+        sim.integrate(sim.t, exact_finish_time=eft)
     elif op == "sync2":
         sim.synchronize()
         sim.synchronize()
@@ -490,7 +520,7 @@ def run_keep(case, ctx):
     for i, seg in enumerate(segs):
         n = seg["n"]
         if seg["how"] == "integrate_hb":
-            hb_ops[:] = [o for o in seg["ops"] if o not in ("save",)] or ["sync"]
+            hb_ops[:] = [o for o in seg["ops"] if o not in ("save", "inow0", "inow1")] or ["sync"]   # no integrate() inside integrate()
             advance(D, "integrate_hb", n)
             hb_ops[:] = []
             nops += n
@@ -505,7 +535,7 @@ def run_keep(case, ctx):
         for o in ops:
             do_op(D, o, ctx, None)
             ctx.cls("op:" + o)
-            if o in ("sync", "sync2"):
+            if o in ("sync", "sync2", "inow0", "inow1"):
                 want, tw, plain = reference(done)
                 got = rb.pstate(D)
                 if D.steps_done != done or rb.dbits(D.t) != rb.dbits(tw):
@@ -563,10 +593,17 @@ def run_twice(case, ctx):
         nonlocal unsync_seen
         if is_unsync(Q):
             unsync_seen = True
-        P.synchronize()
-        Q.synchronize()
+        via = case.get("via", "synchronize")
+
+        def sync(sim):
+            if via == "synchronize":
+                sim.synchronize()
+            else:       # the same output requested through integrate() to the current time
+                sim.integrate(sim.t, exact_finish_time=1 if via == "inow1" else 0)
+        sync(P)
+        sync(Q)
         m1 = rb.smap(Q)
-        Q.synchronize()
+        sync(Q)
         m2 = rb.smap(Q)
         if m1 != m2:
             raise Violation("%s: state after a second synchronize() differs from the state after the first (%s)"
@@ -588,6 +625,7 @@ def run_twice(case, ctx):
     if rb.pstate(P) != rb.pstate(Q) or rb.dbits(P.t) != rb.dbits(Q.t):
         raise Violation("%s: trajectories diverge after double synchronisation" % fam)
     ctx.cls("family:" + fam)
+    ctx.cls("via:" + case.get("via", "synchronize"))
     if unsync_seen:
         ctx.cls("unsynchronized")
     ctx.nontrivial(unsync_seen or case["pre_sync"])
